@@ -818,8 +818,15 @@ def symsplit(cfg=None, reopen_ok=False):
     come out as '.' or '..'."""
     c = cfg if cfg is not None else cfg_st(rr=st.sampled_from(['1.09', '1.10', '1.12']))
 
-    def build(base, count, tail, head, mid, rsz, lead, salt, form, post):
+    def build(base, count, tail, head, mid, rsz, lead, salt, form, post, dots=0):
         ops = []
+        if dots:
+            # a long run of targets 'ddd...d/.profile' (and the like) with consecutive filler lengths: at some length the leading
+            # dot(s) of the second component are all that still fits
+            for i in range(count * 3):
+                ops.append({'k': 'add_sym', 'd': 0, 'form': form, 'jol': False, 'tgt': 0, 'sz': 0, 'rsz': min(rsz, 1), 'usz': 0, 'lead': lead, 'salt': salt, 'reuse': 0,
+                            'td': [base % 400 + 40 + i, dots - 1]})
+            return ops + post
         for i in range(count):
             ops.append({'k': 'add_sym', 'd': 0, 'form': form, 'jol': False, 'tgt': 0, 'sz': 0, 'rsz': rsz, 'usz': 0, 'lead': lead, 'salt': salt, 'reuse': 0,
                         'tx': [base + i, tail, head, mid]})
@@ -828,7 +835,7 @@ def symsplit(cfg=None, reopen_ok=False):
     if reopen_ok:
         post_choices += [reopen]
     return program(c, st.builds(build, st.integers(60, 760), st.integers(8, 20), st.integers(0, 5), st.integers(0, 6), st.integers(0, 5), st.integers(0, 3), I, I,
-                                st.sampled_from([0, 0, 1]), st.lists(st.one_of(*post_choices), min_size=0, max_size=3)))
+                                st.sampled_from([0, 0, 1]), st.lists(st.one_of(*post_choices), min_size=0, max_size=3), st.sampled_from([0, 0, 1, 2, 3, 5])))
 
 
 def cegap(cfg=None, reopen_ok=False):
